@@ -5,12 +5,12 @@ import "github.com/New-JAMneration/JAM-Protocol/internal/zzvt"
 // zzMutate returns a mutation of a valid encoding: either one byte at a symbolic position
 // replaced by an arbitrary byte, or a truncation (every cut for encodings of at most 48 bytes;
 // otherwise the cuts 0, 1, len/2, len-2 and len-1).
-func zzMutate(enc []byte) []byte {
+func zzMutate(enc []byte, truncate bool) []byte {
 	in := append([]byte{}, enc...)
 	if len(in) == 0 {
 		return in
 	}
-	if zzvt.Bool("truncate") {
+	if truncate {
 		if len(in) <= 48 {
 			return in[:zzvt.Range("cut", 0, len(in)-1)]
 		}
@@ -37,14 +37,18 @@ func zzMutate(enc []byte) []byte {
 
 // zzInt yields an integer field value of the given width. The class (bits 8.. of d) is chosen
 // once per harness path: 0 = an arbitrary value in 64..127 (one-byte compact encoding),
-// 1 = the largest value of the width (longest compact encoding), 2 = 2^14 + an arbitrary byte
-// (three-byte compact encoding; class 0 for widths below 16), 3 = zero. Natural-number
+// 1 = the largest value of the width (longest compact encoding), 2 = 2^16 + 2^14 + an arbitrary
+// byte for 32/64-bit fields (three-byte compact encoding with value bits in the prefix byte),
+// 2^14 + byte for 16-bit fields (class 0 below 16), 3 = zero. Natural-number
 // encoding itself is decided for every 64-bit value by the C12 harnesses.
 func zzInt(d int, tag string, width uint) uint64 {
-	switch d >> 8 {
+	switch d >> 8 & 0xff {
 	case 1:
 		return ^uint64(0) >> (64 - width)
 	case 2:
+		if width >= 32 {
+			return 1<<16 + 1<<14 + uint64(zzU8(d, tag)) // prefix c1: value bits in the prefix byte
+		}
 		if width >= 16 {
 			return 1<<14 + uint64(zzU8(d, tag))
 		}
@@ -73,13 +77,13 @@ func zzIntClass(mid bool) int {
 }
 
 // Shape of generated values. d carries the nesting depth (bits 0..7), the integer class
-// (bits 8..15) and the inner shape (bit 16). At depth 0 every sequence length (0 or 1),
+// (bits 8..15) and the inner shape (bit 16). At depth 0 every sequence length (0, 1 or 2),
 // optional presence and map entry is an independent choice; at depth 1 all of them follow the
 // inner-shape bit (all one element / present, or all empty / absent); deeper levels are empty.
 func zzLen(d int, tag string) int {
 	switch d & 0xff {
 	case 0:
-		return zzvt.Range(tag, 0, 1)
+		return zzvt.Range(tag, 0, 2)
 	case 1:
 		return 1 - d>>16&1
 	}
@@ -129,6 +133,9 @@ func zzBool(d int, tag string) bool {
 	if zzConcrete(d) {
 		return true
 	}
+	if d&0xff >= 2 {
+		return d>>16&1 == 0 // deep booleans follow the inner-shape bit (decoders branch on each)
+	}
 	return zzvt.Bool(tag)
 }
 
@@ -159,6 +166,29 @@ func zzDecodeSafely(in []byte, w any) {
 	bound := 64*len(in) + 65536
 	zzvt.AllocBudget(bound)
 	panicked := zzvt.Try(func() { _ = NewDecoder().Decode(in, w) })
-	zzvt.Assert(!panicked, "decode-no-panic")
-	zzvt.Assert(zzvt.Allocated() <= bound, "decode-alloc-bounded")
+	// one label: the engine reports an over-budget allocation as a panic at the make(), the
+	// native replay either panics there or measures the allocation afterwards
+	zzvt.Assert(!panicked && zzvt.Allocated() <= bound, "decode-no-panic-and-allocation-bounded")
+}
+
+// zzBomb overlays a maximal length prefix on a valid encoding: at a symbolic position the
+// byte ff followed by the eight bytes of 2^64-1, 2^63 or 2^56 (the nine-byte compact form);
+// eight spare bytes are appended first so that the overlay fits at every position.
+func zzBomb(enc []byte) []byte {
+	in := append(append([]byte{}, enc...), make([]byte, 8)...)
+	pos := zzvt.Int("bombPos")
+	zzvt.Assume(zzvt.And(pos >= 0, pos < len(enc)+1))
+	payload := [3][8]byte{
+		{0xff, 0xff, 0xff, 0xff, 0xff, 0xff, 0xff, 0xff},
+		{0, 0, 0, 0, 0, 0, 0, 0x80},
+		{0, 0, 0, 0, 0, 0, 0, 0x01},
+	}[zzvt.Range("bombValue", 0, 2)]
+	for i := range in {
+		b := uint64(in[i])
+		for k := 7; k >= 0; k-- {
+			b = zzvt.Ite64(pos+1+k == i, uint64(payload[k]), b)
+		}
+		in[i] = byte(zzvt.Ite64(pos == i, 0xff, b))
+	}
+	return in
 }
